@@ -1,5 +1,6 @@
 import Gittuf.Props.C08
 import Gittuf.Proofs.CacheRefine
+import Gittuf.Proofs.CacheLoop
 #print axioms Gittuf.Cache.C08_insert_mem
 #print axioms Gittuf.Cache.C08_insert_sorted
 #print axioms Gittuf.Cache.C08_findFor_greatest
@@ -8,3 +9,4 @@ import Gittuf.Proofs.CacheRefine
 #print axioms Gittuf.World.C08_F6_witness
 #print axioms Gittuf.World.C08_F29_witness
 #print axioms Gittuf.World.C08_lookup_refines
+#print axioms Gittuf.World.relLoopC_verdict
